@@ -144,6 +144,32 @@ fn is_io(e: &tera::Error) -> bool {
 pub fn check_request(t: &tera::Tera, req: &Req, ctx: &tera::Context, case: &dyn Fn() -> serde_json::Value, exhaustive_limit: usize, seed: u64, l: &mut Local) -> Check {
     let fail = |sig: &str, what: String| Err(Fail::new(format!("C18/{sig}"), format!("{} :: {what}", req.json()), case()));
     let ctx_before = ctx.clone();
+    // resource guard: a request whose output exceeds 8 MiB is not a case for this check (generated programs can be
+    // legitimate output bombs); it is discarded and counted
+    struct Cap {
+        left: usize,
+        hit: bool,
+    }
+    impl Write for Cap {
+        fn write(&mut self, b: &[u8]) -> std::io::Result<usize> {
+            if b.len() > self.left {
+                self.hit = true;
+                return Err(std::io::Error::new(std::io::ErrorKind::Other, "output cap of the harness"));
+            }
+            self.left -= b.len();
+            Ok(b.len())
+        }
+        fn flush(&mut self) -> std::io::Result<()> {
+            Ok(())
+        }
+    }
+    let mut cap = Cap { left: 8 << 20, hit: false };
+    let _ = guard(|| req.to_writer(t, ctx, &mut cap));
+    if cap.hit {
+        l.discard();
+        l.label("request:output-over-8MiB-discarded");
+        return Ok(());
+    }
     let full = match guard(|| req.to_string_api(t, ctx)) {
         Ok(Ok(s)) => s,
         Ok(Err(e)) => {
@@ -432,6 +458,16 @@ pub fn run(rep: &Report) {
     // generated programs
     run_family(rep, "generated_programs", rep.tier.scale(120_000, 20), || (stmtgen::body(3, false, false, stmtgen::SOpts { includes: &["inc1"] }), stmtgen::body(1, false, false, stmtgen::SOpts { includes: &[] }), stmtgen::ctxs(), any::<bool>(), any::<u64>()), |(main, inc, (ctx, glob), auto, salt), l| {
         let (mb, ib) = (stmtgen::with_obs(main.clone(), false), inc.clone());
+        // a third of the cases: one name is rebound to a byte string (valid, invalid, truncated UTF-8). This happens BEFORE the
+        // work-budget filter: rebinding a name can remove an early error and let the program run into a part the filter never saw
+        let mut ctx = ctx.clone();
+        if salt % 3 == 0 {
+            const BLOBS: [&[u8]; 9] = [b"caf\xC3", b"\xff", b"\xE6\x97", b"ok<", b"\xF0\x9F\x98", b"a\x80b", b"", b"\xE6\x97\xA5\xE6", b"<\xC3\xA9\xC3"];
+            let name = stmtgen::NAMES[(splitmix(*salt) % stmtgen::NAMES.len() as u64) as usize];
+            ctx.insert(name.to_string(), MVal::Bytes(BLOBS[(splitmix(*salt ^ 77) % 9) as usize].to_vec()));
+            l.label("context:bytes");
+        }
+        let ctx = &ctx;
         // work budget through the reference interpreter (as a filter)
         let mut map = std::collections::BTreeMap::new();
         map.insert("inc1".to_string(), Tpl { body: ib.clone(), ..Default::default() });
@@ -451,16 +487,6 @@ pub fn run(rep: &Report) {
         if let Err(e) = t.add_raw_templates(tpls.clone()) {
             return Err(Fail::new("C18/valid-program-rejected", e.to_string(), json!({"kind": "generated", "templates": tpls})));
         }
-        // a third of the cases: one name is rebound to a byte string (valid, invalid, truncated UTF-8) after the budget filter;
-        // no model is involved in this check, only the agreement of the channels
-        let mut ctx = ctx.clone();
-        if salt % 3 == 0 {
-            const BLOBS: [&[u8]; 9] = [b"caf\xC3", b"\xff", b"\xE6\x97", b"ok<", b"\xF0\x9F\x98", b"a\x80b", b"", b"\xE6\x97\xA5\xE6", b"<\xC3\xA9\xC3"];
-            let name = stmtgen::NAMES[(splitmix(*salt) % stmtgen::NAMES.len() as u64) as usize];
-            ctx.insert(name.to_string(), MVal::Bytes(BLOBS[(splitmix(*salt ^ 77) % 9) as usize].to_vec()));
-            l.label("context:bytes");
-        }
-        let ctx = &ctx;
         let tc = ctx_to_tera_enc(ctx, &Enc::new(*salt));
         let req = Req::Template(name.to_string());
         check_request(&t, &req, &tc, &|| json!({"kind": "generated", "templates": tpls, "context": ctx_to_json(ctx), "global": ctx_to_json(glob), "salt": salt}), 300, *salt, l)
